@@ -17,6 +17,8 @@ type mTarget struct {
 	kind string // bool int uint float string duration strslice struct
 }
 
+var mSeen = map[string]bool{}
+
 var mKindCoq = map[string]string{"bool": "KBool", "int": "KInt", "uint": "KUint", "float": "KFloat", "string": "KString",
 	"duration": "KDuration", "strslice": "KStrSlice", "struct": "KStruct"}
 
@@ -161,7 +163,10 @@ func dMismatch(out *vOut, r *vRand, all []dEntryPts) {
 			if fits && !(tg.kind == "uint" && w.f < 0) && !(tg.kind == "duration" && w.fam == "str") {
 				out.Oracle("valid-setting-rejected", pre+"DErr)", fmt.Sprintf("%s (%s) written %v rejected: %v", key, tg.kind, w.yaml, err))
 			}
-			out.Case(true, pre+"DErr)")
+			if !mSeen[pre+"DErr"] {
+				mSeen[pre+"DErr"] = true
+				out.Case(true, pre+"DErr)")
+			}
 			out.Stat("mismatch.rejected."+tg.kind+"<-"+w.fam, 1)
 			continue
 		}
@@ -219,7 +224,10 @@ func dMismatch(out *vOut, r *vRand, all []dEntryPts) {
 				}
 			}
 		}
-		out.Case(w.fam != "null", pre+obs+")")
+		if !mSeen[pre+obs] {
+			mSeen[pre+obs] = true
+			out.Case(w.fam != "null", pre+obs+")")
+		}
 		out.Stat("mismatch.accepted."+tg.kind+"<-"+w.fam, 1)
 	}
 }
